@@ -14,6 +14,10 @@ bnp.change_encoding, .to_string() / .tolist() / str() / from_encoded_array):
               as_encoded_array(x, T), T.encode(x), change_encoding(x, T) either raise or return data that decodes to
               the same text (same rows); change_encoding (documented as decode-then-encode) must succeed when every
               letter is in T's alphabet.
+  pieces      for a python list (tuple, object ndarray) whose ELEMENTS are already encoded - 1-d EncodedArrays (rows), 0-d
+              EncodedArrays (single letters such as a[2]), or str - every piece with its own encoding (equal or mixed),
+              with and without a target encoding: as_encoded_array(pieces[, T]) either raises or returns data that decodes
+              to the text of the pieces, piece for piece; never relabelled letters.
   retarget on views
               the same three calls when the source is a NOT-YET-FLATTENED VIEW left by an earlier indexing step
               (a[::-1], a[idx], a[mask], a[1:4], a[::2], a[:, 1:], chains of them): a larger array is built and indexed,
@@ -371,6 +375,176 @@ def eval_retarget_other(col, case):
               "%r silently became %r under %s" % (exp, got, case["dst"]))
 
 
+# ----------------------------------------------------------------------------------------------- contract: lists of encoded pieces
+# The list branch of the type dispatch when the ELEMENTS are already encoded: a python list (tuple, object ndarray) whose
+# pieces are 1-d EncodedArrays (rows: a[i:j], a ragged row, a freshly encoded string, a strided view), 0-d EncodedArrays
+# (single letters: a[i], rr[r, c], a[::-1][i]) or plain str, every piece with its OWN encoding.  Oracle: the call raises,
+# or the result decodes to the text of the pieces, piece for piece (a flat result is accepted when every piece is one letter).
+PIECE_ENCS = ENC_NAMES + ["Base", "fresh:ACGT"]
+PIECE_TARGETS = [None] + ENC_NAMES + ["Base", "Quality"]
+LETTER_HOWS = ("index", "ragged", "view")
+ROW_HOWS = ("slice", "ragged-row", "fresh", "strided")
+
+
+_PIECE_SOURCES = {}
+
+
+def _piece_source(enc_name, text):
+    """the array a piece is taken from: built once per (encoding, text) with the public API; every piece is a NEW object
+    obtained from it by indexing (the library's encode call dominates the cost of a case otherwise)"""
+    import bionumpy as bnp
+    key = (enc_name, text if isinstance(text, str) else tuple(text))
+    if key not in _PIECE_SOURCES:
+        if len(_PIECE_SOURCES) > 20000:
+            _PIECE_SOURCES.clear()
+        _PIECE_SOURCES[key] = bnp.as_encoded_array(text, get_enc(enc_name))
+    return _PIECE_SOURCES[key]
+
+
+def build_piece(p):
+    """one piece, taken out of an array built with the public API from its text; nothing of it is read here"""
+    data = list(p["data"])
+    if p["as"] == "str":
+        return s_of(data)
+    enc = p["enc"]
+    how = p.get("how") or ("index" if p["as"] == "letter" else "slice")
+    if p["as"] == "letter":
+        b = data[0]
+        q = p.get("pad", b)
+        if how == "index":          # a[1] of  q b q  (the neighbours differ where the text allows it)
+            return _piece_source(enc, s_of([q, b, q]))[1]
+        if how == "ragged":         # rr[1, 1] of a ragged array
+            return _piece_source(enc, [s_of([q]), s_of([q, b]), ""])[1, 1]
+        if how == "view":           # element of a reversed view
+            return _piece_source(enc, s_of([b, q, q]))[::-1][2]
+        raise KeyError(how)
+    pad = [p["pad"]] if "pad" in p else (data[:1] or [])
+    if how == "slice":
+        return _piece_source(enc, s_of(pad + data + pad))[len(pad):len(pad) + len(data)]
+    if how == "ragged-row":
+        return _piece_source(enc, [s_of(pad), s_of(data), ""])[1]
+    if how == "fresh":
+        import bionumpy as bnp
+        return bnp.as_encoded_array(s_of(data), get_enc(enc))
+    if how == "strided":
+        return _piece_source(enc, s_of([b for d in data for b in (d, pad[0])]))[::2]
+    raise KeyError(how)
+
+
+def build_container(kind, items):
+    import numpy as np
+    if kind == "list":
+        return list(items)
+    if kind == "tuple":
+        return tuple(items)
+    if kind == "object-array":
+        o = np.empty(len(items), dtype=object)
+        for i, it in enumerate(items):
+            o[i] = it
+        return o
+    raise KeyError(kind)
+
+
+def piece_shape_kind(pieces):
+    kinds = {p["as"] for p in pieces}
+    if "str" in kinds:
+        return "with-str"
+    if kinds == {"letter"}:
+        return "letters"
+    if kinds == {"row"}:
+        return "rows"
+    return "letters+rows" if kinds else "empty"
+
+
+def piece_encodings_mixed(pieces):
+    """spec level: do the codes of the encoded pieces mean the same letters?  (same alphabet <=> equal encodings)"""
+    alph = {spec_alphabet(p["enc"]) or p["enc"] for p in pieces if p["as"] != "str"}
+    if any(p["as"] == "str" for p in pieces):
+        alph.add("<str>")
+    return len(alph) > 1
+
+
+def observe_pieces_result(r, T):
+    """('rows', [str]) | ('flat', str) of whatever the call returned; raises when it cannot be decoded"""
+    import numpy as np
+    from npstructures import RaggedArray
+    from bionumpy.encoded_array import EncodedArray, EncodedRaggedArray
+    if isinstance(r, EncodedRaggedArray):
+        return "rows", r.tolist()
+    if isinstance(r, EncodedArray):
+        if r.ndim == 2:
+            return "rows", [r[i].to_string() for i in range(r.shape[0])]
+        return "flat", r.to_string()
+    if T is not None and T.is_numeric() and isinstance(r, (np.ndarray, RaggedArray)):
+        d = T.decode(r)             # numeric target: the values stand for the bytes value + offset
+        if isinstance(d, RaggedArray):
+            return "rows", [s_of(int(v) for v in row) for row in d.tolist()]
+        d = np.asarray(d)
+        if d.ndim == 2:
+            return "rows", [s_of(int(v) for v in row) for row in d.tolist()]
+        return "flat", s_of(int(v) for v in d.ravel())
+    return "not-text", type(r).__name__
+
+
+_PIECE_PROBE = {}
+
+
+def _piece_reads_back(p, e):
+    key = (p["as"], p["enc"], tuple(p["data"]), p.get("how"), p.get("pad"))
+    if key not in _PIECE_PROBE:
+        _PIECE_PROBE[key] = _safe(lambda: build_piece(p).to_string()) == e
+    return _PIECE_PROBE[key]
+
+
+def eval_pieces(col, case):
+    """case: {"k":"pieces","pieces":[{"as":"letter"|"row"|"str","enc":name,"data":[bytes],"how":..,"pad":byte}, ..],
+              "dst": name | None, "container": "list" | "tuple" | "object-array"}"""
+    import bionumpy as bnp
+    pieces = case["pieces"]
+    dst = case.get("dst")
+    T = get_enc(dst) if dst else None
+    cont = case.get("container", "list")
+    exp = [expected_text(p["data"]) for p in pieces]
+    # on SEPARATE copies: every piece reads back as its text (else the encode contract reports it)
+    for p, e in zip(pieces, exp):
+        if p["as"] != "str" and not _piece_reads_back(p, e):
+            return
+    items = [build_piece(p) for p in pieces]
+    x = build_container(cont, items)
+    shape = piece_shape_kind(pieces)
+    mixed = "mixed-encodings" if piece_encodings_mixed(pieces) else "equal-encodings"
+    other_target = dst is not None and any((spec_alphabet(p["enc"]) or p["enc"]) != (spec_alphabet(dst) or dst)
+                                           for p in pieces if p["as"] != "str")
+    tail = "%s:%s%s" % (shape + ("" if cont == "list" else ":" + cont), mixed, ":target-differs" if other_target else "")
+    col.case(case, nontrivial=len(pieces) >= 2 and sum(len(e) for e in exp) > 0, contract="pieces:as_encoded_array:" + tail)
+    try:
+        r = bnp.as_encoded_array(x) if T is None else bnp.as_encoded_array(x, T)
+    except Exception:
+        return                      # refused: the property holds
+    if r is x:
+        return                      # handed back untouched (an ndarray with a numeric target counts as encoded already)
+    descr = "as_encoded_array(%s of %s%s)" % (cont, ", ".join("%s %s %r" % (p["as"], p.get("enc", ""), e) for p, e in zip(pieces, exp)),
+                                              ", %s" % dst if dst else "")
+    try:
+        form, got = observe_pieces_result(r, T)
+    except Exception as e:
+        col.fail("pieces:as_encoded_array:result-not-decodable:%s:%s" % (type(e).__name__, tail), case,
+                 "%s was accepted but the result cannot be decoded: %s" % (descr, str(e)[:200]))
+        return
+    if form == "not-text":
+        col.fail("pieces:as_encoded_array:result-not-text:" + tail, case, "%s returned a %s" % (descr, got))
+        return
+    if form == "flat":
+        ok = got == "".join(exp) and shape in ("letters", "empty")
+        h = None if ok else ("rows-changed" if got == "".join(exp) else how_differs([got], ["".join(exp)]))
+    else:
+        h = how_differs(got, exp)
+        if h == "row-boundaries":
+            h = "rows-changed"
+    col.check(h is None, "pieces:as_encoded_array:%s:%s" % ("different-letters" if h == "letters" else h, tail), case,
+              "%s silently became %r (result encoding %r), expected %r" % (descr, got, getattr(r, "encoding", None), exp))
+
+
 # ----------------------------------------------------------------------------------------------- contract: retarget on views
 TEXT_SOURCES = ("Base", "Bytes")       # base-encoded arrays and plain uint8 (ragged) arrays: text, not yet alphabet-encoded
 
@@ -618,7 +792,7 @@ def _cut(t, lens):
     return out + ([t[o:]] if o != len(t) else [])
 
 
-EVAL = {"enc": eval_enc, "retarget": eval_retarget, "retarget_view": eval_retarget_view, "retarget_other": eval_retarget_other, "numeric": eval_numeric,
+EVAL = {"enc": eval_enc, "retarget": eval_retarget, "pieces": eval_pieces, "retarget_view": eval_retarget_view, "retarget_other": eval_retarget_other, "numeric": eval_numeric,
         "observers": eval_observers}
 
 
@@ -833,6 +1007,132 @@ def gen_retarget(tier):
             yield {"k": "retarget_other", "src": "string", "dst": dst, "fn": fn, "labels": ["C", "A", "T"], "texts": ["A", "C", "T", "A"]}
 
 
+def piece_letters(enc, other):
+    """the letters pieces of encoding `enc` are made of: its alphabet; the base encoding (no alphabet) takes the partner's"""
+    return alphabet_bytes(spec_alphabet(enc) or spec_alphabet(other) or "ACGT")
+
+
+def _letter(enc, w, i, how=None):
+    p = {"as": "letter", "enc": enc, "data": [w[i % len(w)]], "pad": w[(i + 1) % len(w)]}
+    if how:
+        p["how"] = how
+    return p
+
+
+def _row(enc, w, i, j, how=None):
+    p = {"as": "row", "enc": enc, "data": [w[k % len(w)] for k in range(i, j)], "pad": w[(j + 1) % len(w)]}
+    if how:
+        p["how"] = how
+    return p
+
+
+def piece_arrangements(e1, e2, full, ks):
+    """lists of pieces made from two encodings (name, arrangement): all letters / rows of one followed by, or enclosing,
+    those of the other; the same code position of both; the odd one out first / in the middle / last; empty rows; 0-d and
+    1-d pieces mixed; str and encoded pieces mixed"""
+    w1, w2 = piece_letters(e1, e2), piece_letters(e2, e1)
+    L1 = [_letter(e1, w1, i) for i in range(len(w1))]
+    L2 = [_letter(e2, w2, i) for i in range(len(w2))]
+    R1 = [_row(e1, w1, 0, 3), _row(e1, w1, 1, 4), _row(e1, w1, 2, 3)]
+    R2 = [_row(e2, w2, 0, 3), _row(e2, w2, 1, 4), _row(e2, w2, 2, 3)]
+    out = [L1 + L2, R1 + R2, [L1[2], L2[2]], [_row(e1, w1, 2, 4), _row(e2, w2, 2, 4)]]
+    if not full:
+        return out
+    out += [L1[:1] + L2 + L1[1:], R1[:1] + R2 + R1[1:]]
+    for k in ks:
+        if k != 2:
+            out.append([_letter(e1, w1, k), _letter(e2, w2, k)])
+            out.append([_row(e1, w1, k, k + 2), _row(e2, w2, k, k + 2)])
+        out.append([_row(e1, w1, k, k + 1), _row(e2, w2, k, k + 1)])
+    out += [
+        [L1[0], L1[1], L2[2]], [L1[0], L2[1], L1[2]], [L2[0], L1[1], L1[2]],
+        [_row(e1, w1, 0, 2), _row(e1, w1, 1, 3), _row(e2, w2, 2, 4)], [_row(e1, w1, 0, 2), _row(e2, w2, 1, 3), _row(e1, w1, 2, 4)],
+        [_row(e1, w1, 0, 2), _row(e2, w2, 0, 0), _row(e1, w1, 2, 4)], [_row(e1, w1, 0, 0), _row(e2, w2, 2, 4)],
+        [_row(e1, w1, 0, 0), _row(e2, w2, 0, 0)],
+        [L1[1], _row(e2, w2, 1, 3)], [_row(e1, w1, 1, 3), L2[1]], [L1[1], _row(e2, w2, 1, 2)],
+        [{"as": "str", "data": w1[1:3]}, _row(e2, w2, 1, 3)], [_row(e1, w1, 1, 3), {"as": "str", "data": w2[1:3]}],
+        [{"as": "str", "data": w1[2:3]}, L2[2]], [L1[2], {"as": "str", "data": w2[2:3]}],
+    ]
+    return out
+
+
+def gen_pieces(tier):
+    # ---- 3b. lists of already encoded pieces (0-d letters / 1-d rows / str), every piece with its own encoding
+    thorough = tier == "thorough"
+    yield {"k": "pieces", "pieces": [], "dst": None}
+    for dst in PIECE_TARGETS[1:]:
+        yield {"k": "pieces", "pieces": [], "dst": dst}
+    for e1 in PIECE_ENCS:
+        w = piece_letters(e1, "Base")
+        for dst in PIECE_TARGETS:
+            for i in range(len(w)):                     # one piece: every letter as a 0-d / 1-d piece
+                yield {"k": "pieces", "pieces": [_letter(e1, w, i)], "dst": dst}
+                yield {"k": "pieces", "pieces": [_row(e1, w, i, i + 1)], "dst": dst}
+            yield {"k": "pieces", "pieces": [_row(e1, w, 0, 0)], "dst": dst}
+    # (i) every ordered pair of piece encodings x every arrangement (quick: all arrangements without a target, the four basic
+    #     ones with the targets {either piece encoding, ACGTn, base, a numeric one}; thorough: all arrangements x all targets)
+    for e1 in PIECE_ENCS:
+        for e2 in PIECE_ENCS:
+            n = min(len(piece_letters(e1, e2)), len(piece_letters(e2, e1)))
+            ks = range(n) if thorough else sorted({0, 1, 2, 3, n - 1})
+            for dst in PIECE_TARGETS:
+                if not thorough and dst not in (None, e1, e2, "ACGTnEncoding", "Base", "Quality"):
+                    continue
+                for ai, pieces in enumerate(piece_arrangements(e1, e2, dst is None or thorough, ks)):
+                    yield {"k": "pieces", "pieces": pieces, "dst": dst}
+                    if ai < 4 and dst in (None, e2):        # other containers holding the same pieces
+                        for cont in ("tuple", "object-array"):
+                            yield {"k": "pieces", "pieces": pieces, "dst": dst, "container": cont}
+    # (ii) how the pieces were obtained: every pair of ways, for two pieces at the same code position
+    few = ["ACGTEncoding", "ACTGEncoding", "ACGTnEncoding", "AminoAcidEncoding", "BamEncoding", "Base"]
+    for e1 in PIECE_ENCS if thorough else few:
+        for e2 in PIECE_ENCS if thorough else few:
+            w1, w2 = piece_letters(e1, e2), piece_letters(e2, e1)
+            for k in (1, 2, 3) if thorough else (2,):
+                for h1 in LETTER_HOWS:
+                    for h2 in LETTER_HOWS:
+                        if (h1, h2) != ("index", "index"):
+                            yield {"k": "pieces", "pieces": [_letter(e1, w1, k, h1), _letter(e2, w2, k, h2)], "dst": None}
+                for h1 in ROW_HOWS:
+                    for h2 in ROW_HOWS:
+                        if (h1, h2) != ("slice", "slice"):
+                            yield {"k": "pieces", "pieces": [_row(e1, w1, k, k + 2, h1), _row(e2, w2, k, k + 2, h2)], "dst": None}
+    # (iii) thorough: three encodings, every triple of code positions 0..3 (letters), every triple of row starts 0..2 (rows)
+    if thorough:
+        trio = ["ACGTEncoding", "ACTGEncoding", "ACGTnEncoding", "ACUGEncoding", "AminoAcidEncoding", "BamEncoding", "Base"]
+        for e1, e2, e3 in itertools.product(trio, repeat=3):
+            w1, w2, w3 = piece_letters(e1, e2), piece_letters(e2, e1), piece_letters(e3, e1 if spec_alphabet(e1) else e2)
+            for i, j, k in itertools.product(range(4), repeat=3):
+                yield {"k": "pieces", "pieces": [_letter(e1, w1, i), _letter(e2, w2, j), _letter(e3, w3, k)], "dst": None}
+            for i, j, k in itertools.product(range(3), repeat=3):
+                yield {"k": "pieces", "pieces": [_row(e1, w1, i, i + 2), _row(e2, w2, j, j + 1), _row(e3, w3, k, k + 2)], "dst": None}
+
+
+def sampled_piece_cases(seed, n):
+    """above the bounds: lists of 2..7 pieces, random encodings (mostly two), kinds, ways of obtaining them, targets"""
+    import random
+    rng = random.Random(seed * 104729 + 66)
+    for _ in range(n):
+        encs = [rng.choice(PIECE_ENCS) for _ in range(rng.choice((1, 2, 2, 2, 3)))]
+        kind = rng.choice(("letter", "letter", "row", "row", "any"))
+        pieces = []
+        for _ in range(rng.randint(2, 7)):
+            e = rng.choice(encs)
+            w = piece_letters(e, encs[0] if spec_alphabet(encs[0]) else encs[-1])
+            as_ = kind if kind != "any" else rng.choice(("letter", "row", "row", "str"))
+            i = rng.randrange(len(w))
+            if as_ == "letter":
+                pieces.append(_letter(e, w, i, rng.choice(LETTER_HOWS)))
+            elif as_ == "row":
+                pieces.append(_row(e, w, i, i + rng.choice((0, 1, 1, 2, 3, 5)), rng.choice(ROW_HOWS)))
+            else:
+                pieces.append({"as": "str", "data": [w[(i + d) % len(w)] for d in range(rng.randint(0, 3))]})
+        case = {"k": "pieces", "pieces": pieces, "dst": rng.choice([None, None] + PIECE_TARGETS)}
+        if rng.random() < 0.1:
+            case["container"] = rng.choice(("tuple", "object-array"))
+        yield case
+
+
 # big arrays to index into: row lengths, unequal, with empty rows at the start / middle / end / adjacent
 VIEW_SHAPES = [(2, 0, 3, 1, 4, 1, 0, 2), (0, 1, 5, 2, 0, 3), (3, 1, 0, 0, 2, 6, 1), (1, 2, 3, 4, 5, 6),
                (0, 0, 2, 1), (4, 0, 1), (2, 2, 0, 2, 2, 1), (6, 5, 4, 3, 2, 1, 0), (1, 0, 1, 0, 1, 0, 3), (3, 0)]
@@ -1019,7 +1319,7 @@ def gen_numeric(tier):
 
 def gen_cases(tier, rng=None):
     """order: cheap and defect-prone parts first, so that a cut by the time budget loses the least"""
-    for g in (gen_bytes, gen_numeric, gen_retarget, gen_views, gen_strings, gen_lists):
+    for g in (gen_bytes, gen_numeric, gen_pieces, gen_retarget, gen_views, gen_strings, gen_lists):
         yield from g(tier)
 
 
@@ -1089,7 +1389,8 @@ def run(tier="quick", seed=0):
                     "length L over each alphabet in all single-position case variants; the same with one foreign byte inserted at "
                     "every position; lists of 0..3 rows of length 0..2 x every container kind (+ one foreign byte at every row/position); "
                     "every ordered pair of alphabets x every string up to length Lr over the source alphabet x {as_encoded_array, "
-                    "change_encoding, encode}; the same three calls on sources that are not-yet-flattened views (a larger array indexed "
+                    "change_encoding, encode}; lists of already encoded pieces (0-d letters / 1-d rows / str, each piece with its own "
+                    "encoding): every ordered pair of piece encodings x every arrangement x targets; the same three calls on sources that are not-yet-flattened views (a larger array indexed "
                     "by a[::-1] / a[idx] / a[mask] / a[i:j] / a[::2] / a[:, c0:c1] and chains, handed over unread): every ordered pair "
                     "of alphabets x a family of big arrays x every kind of view, and per function one pair x every big array of 2..N "
                     "rows x every kind of view, and x every slice / mask / index list / column trim of one array; "
@@ -1126,9 +1427,27 @@ def run(tier="quick", seed=0):
             "oracle": "plain Python list indexing of the rows (refmodels/alphabets.apply_view); a separate copy of every view is "
                       "read back first and must agree with it",
         },
+        "pieces": {
+            "piece_encodings": PIECE_ENCS, "targets": ["(none)"] + PIECE_TARGETS[1:],
+            "piece kinds": "0-d letter obtained by %r, 1-d row obtained by %r, str" % (LETTER_HOWS, ROW_HOWS),
+            "containers": "list; tuple and object ndarray for the basic arrangements",
+            "(i) every ordered pair of piece encodings": "arrangements: all letters (rows) of one then / enclosing those of the other, "
+                "both pieces at the same code position k (%s), the odd piece first / middle / last of three, empty rows, "
+                "0-d with 1-d pieces, str with encoded pieces; %s" % (
+                    "every k" if tier == "thorough" else "k in 0..3 and the last common one",
+                    "all arrangements x all targets" if tier == "thorough" else
+                    "all arrangements without target, four basic ones x {either piece encoding, ACGTn, Base, Quality}"),
+            "(ii) ways of obtaining the pieces": "every pair of ways x %s" % (
+                "every pair of encodings x k in 1..3" if tier == "thorough" else "6 encodings squared x k = 2"),
+            "(iii) three encodings": "7 encodings cubed x every triple of code positions 0..3 (letters) / row starts 0..2"
+                                     if tier == "thorough" else "thorough tier only",
+            "single pieces and the empty list": "every letter of every encoding as one 0-d / 1-d piece x every target",
+            "oracle": "the call raises, or the result reads back as the texts of the pieces (spec alphabets), piece for piece",
+        },
         "numeric": "every byte >= min_code for Quality(33), Digit(48), CigarLen(0)",
         "sampled": "random strings of length 5..40 above the bounds (seeded); random views: big arrays of 3..12 rows of length "
-                   "0..8, chains of 1..3 random indexing steps (seeded, time permitting)",
+                   "0..8, chains of 1..3 random indexing steps (seeded, time permitting); random lists of 2..7 encoded pieces "
+                   "(1..3 encodings, random kinds / ways / targets / containers)",
     }
     for case in gen_cases(tier, col.rng):
         evaluate(col, case)
@@ -1140,6 +1459,10 @@ def run(tier="quick", seed=0):
             evaluate(col, case)
             if time.time() - col.t0 > col.budget_s:
                 break
+        for case in sampled_piece_cases(seed, 300 if tier == "quick" else 5000):
+            if time.time() - col.t0 > col.budget_s:
+                break
+            evaluate(col, case)
         for case in sampled_view_cases(seed, 200 if tier == "quick" else 10000):
             if time.time() - col.t0 > col.budget_s:
                 break
